@@ -4231,7 +4231,11 @@ func init() {
 	addDecided("C09", " Emptiness tests that select a printing alternative are on fields fed from never-empty tokens (R-C09-discriminator; D40).")
 }
 
-func ruleDiscriminator(c *Ctx, r *Rep) {
+func ruleDiscriminator(c *Ctx, r *Rep) { discriminatorScan(c, r, true) }
+
+// discriminatorScan: printer=true looks at the writeTo methods of query.go (R-C09-discriminator); printer=false at every
+// other function of the package that tells alternatives of a node apart (R-C18-discriminator).
+func discriminatorScan(c *Ctx, r *Rep, printer bool) {
 	y := getYacc(c)
 	if y.Err != "" {
 		r.Undecided("discriminator:grammar", token.NoPos, "%s", y.Err)
@@ -4286,10 +4290,14 @@ func ruleDiscriminator(c *Ctx, r *Rep) {
 	mayBeEmpty := map[string]bool{"tokString": true}
 	n := 0
 	for _, fd := range c.Decls(c.Gojq) {
-		if c.PhysFile(fd.Pos()) != "query.go" || fd.Name.Name != "writeTo" {
+		isPrinter := c.PhysFile(fd.Pos()) == "query.go" && fd.Name.Name == "writeTo"
+		if isPrinter != printer || c.PhysFile(fd.Pos()) == "parser.go" {
 			continue
 		}
 		tn := recvTypeName(fd)
+		if !printer {
+			tn = declKey(fd)
+		}
 		ast.Inspect(fd.Body, func(m ast.Node) bool {
 			ifs, ok := m.(*ast.IfStmt)
 			if !ok {
@@ -4320,6 +4328,9 @@ func ruleDiscriminator(c *Ctx, r *Rep) {
 				}
 				n++
 				key := fmt.Sprintf("discriminator:%s.%s", owner, sel.Sel.Name)
+				if !printer {
+					key = fmt.Sprintf("discriminator:%s:%s.%s", declKey(fd), owner, sel.Sel.Name)
+				}
 				var bad, und []string
 				for _, sy := range syms {
 					ts, ok := terminals(sy, map[string]bool{})
@@ -4335,7 +4346,11 @@ func ruleDiscriminator(c *Ctx, r *Rep) {
 				}
 				switch {
 				case len(bad) > 0:
-					r.Bad(key, b.Pos(), "%s.writeTo tells alternatives apart by `%s`, but the grammar feeds %s.%s from %v, a string literal, which may be empty: the alternative is then printed as the other one (`import \"\" as a;` prints as `include \"\";` and re-parses to a different node)", tn, c.Src(b), owner, sel.Sel.Name, bad)
+					if printer {
+						r.Bad(key, b.Pos(), "%s.writeTo tells alternatives apart by `%s`, but the grammar feeds %s.%s from %v, a string literal, which may be empty: the alternative is then printed as the other one (`import \"\" as a;` prints as `include \"\";` and re-parses to a different node)", tn, c.Src(b), owner, sel.Sel.Name, bad)
+					} else {
+						r.Bad(key, b.Pos(), "%s tells alternatives apart by `%s`, but the grammar feeds %s.%s from %v, a string literal, which may be empty: `import \"\" as a;` is then compiled as `include \"\";` — the alias is dropped and the module's names arrive unprefixed", tn, c.Src(b), owner, sel.Sel.Name, bad)
+					}
 				case len(und) > 0:
 					r.Undecided(key, b.Pos(), "%s.%s is fed from %v, which this rule cannot reduce to terminals", owner, sel.Sel.Name, und)
 				default:
@@ -4345,6 +4360,10 @@ func ruleDiscriminator(c *Ctx, r *Rep) {
 			})
 			return true
 		})
+	}
+	if n == 0 && !printer {
+		r.OK("discriminator:none", token.NoPos, "no function outside the printer tests a grammar-fed string field for emptiness")
+		return
 	}
 	if n == 0 {
 		r.Undecided("discriminator:census", token.NoPos, "no emptiness test on a grammar-fed field in the printer")
